@@ -272,5 +272,45 @@ def run_engine_safe(ctx, binpath, test, cases, tag):
             lo = mid
         except RuntimeError:
             hi = mid
-    lines = run_engine(ctx, binpath, test, cases[:lo], tag) if lo else []
+    try:
+        lines = run_engine(ctx, binpath, test, cases[:lo], tag) if lo else []
+    except RuntimeError as ex:
+        raise EngineFlaky(str(ex))
     return lines, lo
+
+
+class EngineFlaky(Exception):
+    """The engine process dies on inputs it survived a moment ago: a schedule-dependent crash
+    (e.g. 'concurrent map writes')."""
+
+
+def build_race_engine(ctx, engine_file):
+    """pkg/trie engine built with the race detector (needs cgo: CGO_ENABLED=1 and a C compiler).
+    Returns (path|None, note)."""
+    import vf
+    ov = os.path.join(ctx.workdir, "overlay", "ov_race.json")
+    os.makedirs(os.path.dirname(ov), exist_ok=True)
+    base = os.path.basename(engine_file)
+    vf.write_if_changed(ov, json.dumps({"Replace": {os.path.join(ctx.repo, "pkg/trie", base): engine_file}}))
+    out = os.path.join(ctx.workdir, "trie_race.test")
+    env = ctx.goenv()
+    env["CGO_ENABLED"] = "1"
+    rc, log = vf.sh(["go", "test", "-c", "-race", "-vet=off", "-tags", "verif", "-overlay", ov, "-o", out, "./pkg/trie"],
+                    cwd=ctx.repo, env=env, timeout=900)
+    if rc != 0:
+        return None, "go test -race unavailable here: " + log[-300:]
+    return out, ""
+
+
+def run_race(ctx, binpath, cases, tag):
+    """Run the op-sequence engine under the race detector.  Returns (races_found, log tail)."""
+    import vf
+    fin = os.path.join(ctx.workdir, tag + ".in")
+    fout = os.path.join(ctx.workdir, tag + ".out")
+    with open(fin, "w") as f:
+        for c in cases:
+            f.write(json.dumps(c) + "\n")
+    env = ctx.goenv()
+    env.update({"VERIF_IN": fin, "VERIF_OUT": fout, "GORACE": "halt_on_error=0"})
+    rc, log = vf.sh([binpath, "-test.run", "^TestVerifTrieOps$"], cwd=ctx.workdir, env=env, timeout=1700)
+    return ("DATA RACE" in log), (log[-1500:] if rc != 0 else "")
